@@ -30,6 +30,10 @@ HAND_PAIRS = [
     ('<p>See <a href="http://example.com/x">the report</a> today</p>', '<p>See <a>the report</a>http://example.com/x today</p>'),
     ('<p><a>the report</a> /page.html</p>', '<p><a href="/page.html">the report</a> </p>'),
     ('<body><style>a{}</style>lead text <p>x</p></body>', '<body><style>a{}</style>lead text <p>x</p> more</body>'),
+    # an element whose start tag the marker machines never track as open, inside a changed run, followed by blocks
+    ('<div>k</div>', '<div>k</div><span>w <iframe></iframe></span><p>q</p>'),
+    ('<div>k</div><span>w <iframe src="/f"></iframe> v</span><p>q</p><p>r</p>', '<div>k</div><p>r</p>'),
+    ('<p>one</p><hr><p>two</p>', '<p>one</p><p>new</p><hr><p>two three</p>'),
 ]
 
 
